@@ -43,7 +43,22 @@ def run_in_process(ctx):
 
 
 def run(ctx):
-    return run_in_process(ctx)
+    a = run_in_process(ctx)
+    # (b) over the wire: the bundled Client in controlled sessions; its replicas at the end of every board
+    from props import session_common as sc
+    th = ctx['tier'] == 'thorough'
+    ss = sc.gen_sessions(ctx, 'C11', 12 if th else 3, [1, 2, 3] if th else [1, 2], 6 if th else 3)
+    b = sc.run_session_property(ctx, 'C11', ss, 0, 'a network client does not agree with the table manager', 'C11_clients_agree', want_replicas=True)
+    a['evaluations'] += b['evaluations']
+    a['distinct_nontrivial'] += b['distinct_nontrivial']
+    a['traces_validated_against_impl'] = b['traces_validated_against_impl']
+    a['rule'] += ('; (b) sessions of 1..3 boards played by the bundled Client over the protocol under several scheduler strategies: Client.bidding_phase\'s contract and the '
+                  'client-side ObservedPlayingPhase at the end of each board are compared with the board as played (sequential reference, in Coq), and every client must finish')
+    a['distribution']['sessions'] = b['distribution']
+    a['samples'] += b['samples'][:1]
+    a['violations'] = (a['violations'] + b['violations'])[:10]
+    a['tie_mismatches'] += b['tie_mismatches']
+    return a
 
 
 def replay(ctx, rp):
